@@ -648,7 +648,7 @@ Proof.
   intros Hk Hl.
   assert (E : read t b = match scalar_size t with
                          | Some k => if len b <? N.of_nat k then Err else Ok (VU (unbe (firstn k b)), skipn k b)
-                         | None => Err end) by (destruct t; try discriminate; reflexivity).
+                         | None => Err end) by (destruct t; try discriminate; cbn [scalar_size]; rewrite <- short_len; reflexivity).
   rewrite E, Hk. destruct (N.ltb_spec (len b) (N.of_nat k)); [lia|reflexivity].
 Qed.
 
